@@ -132,6 +132,11 @@ def check(ctx, src):
               f"ScopeFn.__exit__ is {t}: names declared nonlocal are not defined here, and every name not defined here must be handed to the parent scope",
               SC, fx.lineno, witness="(let [x 1] (fn [] x)) closes over the global x; nested (nonlocal x) resolves to the wrong function", detail="difference_update; propagate; super().__exit__")
     check_scopefn_params(ctx, comp, "SCOPE-PARAMS")
+    from . import c12
+    from .. import core
+
+    ctx.rule("R-ID-FRESH", "every let binding gets a fresh reserved name (two bindings of one symbol in one let are distinct variables)")
+    core.transfer(ctx, src, c12, {"R-ID-FRESH"}, key_filter=lambda k: "ScopeLet.add" in k)
     ctx.floor("R-ID-SCOPE", 8)
 
 
